@@ -385,7 +385,26 @@ func c07Case(c *hx.Ctx, r *hx.RNG, idx int64) {
 	}
 	c.Note(desc)
 	var ca decimal.Word
+	// sources are read: one time in six the arenas that only hold sources are read-only during the call
+	var roArenas []*hx.Arena
+	if !far && r.Chance(17) {
+		switch shape {
+		case 0:
+			roArenas = []*hx.Arena{arenas[1], arenas[2]}
+		case 1:
+			roArenas = []*hx.Arena{arenas[1]} // z = x in arena 0; y in arena 1
+		case 2:
+			roArenas = []*hx.Arena{arenas[1]} // z = y in arena 0; x in arena 1
+		}
+		for _, a := range roArenas {
+			a.SetReadOnly(true)
+		}
+		c.Classes["read-only-sources"]++
+	}
 	pi := hx.Try(func() { ca = call(false, za, xa, ya) })
+	for _, a := range roArenas {
+		a.SetReadOnly(false)
+	}
 	cls := "kernel/" + name
 	c.Eval(r.U64(), n > 0, cls)
 	c.Classes[fmt.Sprintf("shape/%d", shape)]++
